@@ -176,8 +176,16 @@ SUBMODULES = [
 ]
 # noinspection PyDictCreation
 FUNCTIONS = {}
-FUNCTIONS['ARRAY'] = lambda *args: np.asarray(args, object).view(Array)
-FUNCTIONS['ARRAYROW'] = lambda *args: np.asarray(args, object).view(Array)
+def _array(*args):
+    # Elements such as `-1` are results of operators (0-d arrays): unwrap them.
+    args = [
+        a.ravel()[0] if isinstance(a, np.ndarray) and a.size == 1 and a.ndim != 1
+        else a for a in args
+    ]
+    return np.asarray(args, object).view(Array)
+
+
+FUNCTIONS['ARRAY'] = FUNCTIONS['ARRAYROW'] = _array
 
 
 def get_error(*vals):
